@@ -6,7 +6,7 @@ spin is -1. The added polynomial F = (PCSO after) - (PCSO before) is a function 
 """
 import itertools
 
-from .common import (clause, Fail, Skip, qv, LABELS, INT_COEFS, gen_models, all_small_models, variables_of)
+from .common import clause, LABELS, INT_COEFS, gen_models, all_small_models
 from .c02 import (RELS, LAMS, QUICK_BITS, THOROUGH_BITS, run_penalty_case, true_range, case_bits, both_outcomes,
                   _to_bool, _special_polys, _gen_valid, run_valid_case, _nontrivial_valid, _gen_sequence,
                   run_sequence_case, anc_estimate, sum_enclosure)
